@@ -4,7 +4,8 @@ EXTENDS GitBug, TLC
 
 CONSTANTS MaxCommit,    \* bound on the commit universe
           RankDir,      \* 1 or -1: the (unknowable) order of pack ids relative to creation order
-          WithRestart   \* include Reopen / DeleteClocks
+          WithRestart,  \* include Reopen / DeleteClocks
+          LoaderLess    \* also reopen without clock loaders (as a caller that passes none)
 
 a1 == CHOOSE a \in Author : TRUE
 a2 == IF Cardinality(Author) > 1 THEN CHOOSE a \in Author : a # a1 ELSE a1
@@ -24,7 +25,7 @@ Next ==
   \/ \E r \in Replica : Push(r)
   \/ \E r \in Replica : Fetch(r)
   \/ \E r \in Replica, b \in Bugs : Room(1) /\ Merge(r, b, a1, Rk)
-  \/ WithRestart /\ \E r \in Replica, l \in BOOLEAN : Reopen(r, l)
+  \/ WithRestart /\ \E r \in Replica, l \in (IF LoaderLess THEN BOOLEAN ELSE {TRUE}) : Reopen(r, l)
   \/ WithRestart /\ \E r \in Replica : DeleteClocks(r)
 
 Spec == Init /\ [][Next]_vars
